@@ -174,6 +174,7 @@ def manifest_level(prop):
 
 def check_property(prop, tier='quick', seed=0):
     t0 = time.time()
+    os.environ['VERIF_TIER_EFFECTIVE'] = tier
     rep = Report(prop, tier, seed)
     opts = {'query_timeout_ms': 10000 if tier == 'quick' else 60000,
             'branch_timeout_ms': 5000 if tier == 'quick' else 20000,
@@ -221,6 +222,16 @@ def check_property(prop, tier='quick', seed=0):
         trusted.update(r.get('assumes', []))
         trusted.update(r.get('trusted', []))
         inlined.update(r.get('inlined', []))
+        if not any(e[0] != 'crash' for e in r['errors']):
+            for v in r.get('vacuous', []):
+                rep.crashes.append('%s.%s: obligation %s was only reached '
+                                   'under an unsatisfiable path condition '
+                                   '(vacuous contract)' % (r['module'],
+                                                           r['proof'], v))
+            for v in r.get('uncovered', []):
+                rep.crashes.append('%s.%s: cover point %s was not reached '
+                                   'on any feasible path' % (
+                                       r['module'], r['proof'], v))
         for e in r['errors']:
             if e[0] == 'crash':
                 rep.crashes.append('%s.%s: %s' % (r['module'], r['proof'],
